@@ -45,6 +45,7 @@ EXPLANATION = (
 ASSUMPTIONS = ["pandapower's PPJSONEncoder/PPJSONDecoder round-trip JSON-native values, numpy arrays, pandas objects and registered classes",
                "user-defined classes are outside the tree"]
 TECHNIQUE = "class-attribute provenance classification, writer/reader key-table agreement, registry agreement"
+EXPLANATION += (' ' + '(R15.10) in the functions reachable from convert_format (they run on every load) no isinstance test discriminates net.<attr> / net[<key>] against an Enum class of the package: Enum members come back from JSON as their values.')
 
 NON_NATIVE_CALLS = {"interp1d", "poly1d", "polyint", "interpolation_function", "partial"}
 
